@@ -4,7 +4,7 @@ CONSTANTS
   NetName = "robustirc.net"
   MaxN = 3
   Families = {"reg", "member", "mode", "oper", "services", "entry"}
-  Prologues = {2, 3}
+  Prologues = {3, 5}
 INVARIANT NoFailure
 VIEW View
 CHECK_DEADLOCK FALSE
